@@ -227,6 +227,8 @@ def known_findings(pid):
 
 def write_evidence(pid, tier, seed, level, coverage, wall_s, violations=0, assumptions=None):
     os.makedirs(os.path.join(ROOT, "evidence"), exist_ok=True)
+    if not isinstance(coverage.get("exhaustive", False), bool):     # EVIDENCE.schema.json: boolean; keep the description next to it
+        coverage = dict(coverage); coverage["exhaustive_parts"] = coverage["exhaustive"]; coverage["exhaustive"] = False
     ev = {"property_id": pid, "tier": tier, "seed": int(seed), "level": level, "coverage": coverage,
           "wall_s": round(wall_s, 2), "violations": violations}
     if assumptions:
